@@ -10,12 +10,15 @@ int main(){
     while (std::getline(std::cin, line)){
         if (line.empty()) continue;
         std::istringstream in(line);
+        // "R0" in front: initialize_cell_properties(false), i.e. without the integrity check and the orientation repair (the entry
+        // used for meshes that are known to be closed); the windings then stay as given
+        bool repair = true; { std::streampos p0 = in.tellg(); std::string w; in >> w; if (w == "R0") repair = false; else in.seekg(p0); }
         mesh m; int nn; in >> nn; m.node_pos_lst.resize(3*nn); for (auto& x : m.node_pos_lst) x = rd(in);
         int nf; in >> nf; m.face_point_ids.resize(nf);
         for (auto& f : m.face_point_ids){ f.resize(3); in >> f[0] >> f[1] >> f[2]; }
         try {
             cell_ptr c = std::make_shared<cell>(m, 0u, nullptr);
-            c->initialize_cell_properties();
+            c->initialize_cell_properties(repair);
             vec3 ce = c->compute_centroid();
             auto bb = c->get_aabb();
             vec3 ax = c->get_cell_longest_axis();
